@@ -116,6 +116,11 @@ theorem step_source (s : St) (x : Term) (op : Op) :
   cases op with
   | init src => simp only [step]; rw [init_source]
   | bake => simp only [step]; rw [bake_source]
+  | exchange p z r =>
+    simp only [step, exchange]
+    by_cases hc : (s.etc.isNone || r) = true
+    · rw [if_pos hc, if_pos hc]
+    · rw [if_neg hc, if_neg hc]
   | _ => rfl
 
 theorem agree_step (a b : St) (h : agreeModSource a b) (op : Op) :
@@ -246,9 +251,23 @@ theorem run_append (s : St) (l1 l2 : List Op) : run s (l1 ++ l2) = run (run s l1
 
 theorem run_cons (s : St) (op : Op) (l : List Op) : run s (op :: l) = run (step s op) l := rfl
 
+/-- with `recalculate=True` the histogram and its parameters are always rewritten -/
+theorem exchange_true (s : St) (p : String) (z : Bool) :
+    exchange s p z true =
+      { s with
+        etc := if z then Term.app "etc0" [s.e0, s.d0, .inp p]
+          else Term.app "etc" [s.e0, s.d0, s.geom, s.fft, s.p2o, s.visible, .inp p]
+        c := .app "c" [.inp p], dt := .app "dt" [.inp p], dur := .app "dur" [.inp p] } := by
+  unfold exchange; rw [Bool.or_true, if_pos rfl]
+
+/-- an exchange touches at most the exchange outputs -/
+theorem exchange_eq_withX (s : St) (p : String) (z r : Bool) :
+    exchange s p z r = withX s (exchange s p z r) := by
+  unfold exchange; split <;> rfl
+
 theorem exchange_withX (s t : St) (p : String) (z : Bool) :
     exchange (withX s t) p z true = exchange s p z true := by
-  unfold exchange; simp [withX]
+  rw [exchange_true, exchange_true]; rfl
 
 theorem init_withX (s t : St) (src : String) : init (withX s t) src = withX (init s src) t := by
   have e : withX s t = setTail s (withX s t) := rfl
@@ -279,7 +298,7 @@ theorem run_exchanges (l : List (String × Bool)) : ∀ s : St,
     refine ⟨t, ?_⟩
     rw [List.map_cons, run_cons]
     show run (exchange s p.1 p.2 true) _ = _
-    rw [ht]; rfl
+    rw [ht, exchange_eq_withX s p.1 p.2 true]; rfl
 
 theorem run_cycle (c : Cycle) (s : St) :
     run s c.ops = exchange (init s c.src) c.lastPar c.lastZero true := by
@@ -298,7 +317,8 @@ theorem cycInv_cycle (c : Cycle) (t b : St) (h : cycInv t b) : cycInv (run t c.o
   obtain ⟨u, hu⟩ := h src'
   rw [run_cycle]
   have e : exchange (init t c.src) c.lastPar c.lastZero true
-      = withX (init t c.src) (exchange (init t c.src) c.lastPar c.lastZero true) := rfl
+      = withX (init t c.src) (exchange (init t c.src) c.lastPar c.lastZero true) :=
+    exchange_eq_withX _ _ _ _
   rw [e, init_withX, init_init, hu]
   exact ⟨_, rfl⟩
 
@@ -562,7 +582,10 @@ theorem matEq_exchange (a b : St) (h : matEq a b) (p : String) (z r : Bool) :
   obtain ⟨h1, h2⟩ := h
   simp only [St.mk.injEq, true_and] at h2
   obtain ⟨rfl, rfl, rfl, rfl, rfl, rfl, rfl, rfl, rfl, rfl, rfl, rfl, rfl, rfl, rfl, rfl, rfl, rfl⟩ := h2
-  exact ⟨h1, rfl⟩
+  unfold exchange
+  by_cases hc : (etc.isNone || r) = true
+  · rw [if_pos hc, if_pos hc]; exact ⟨h1, rfl⟩
+  · rw [if_neg hc, if_neg hc]; exact ⟨h1, rfl⟩
 
 theorem matEq_saveRestore (a b : St) (h : matEq a b) : matEq (saveRestore a) (saveRestore b) := by
   obtain ⟨h1, h2⟩ := h
@@ -597,5 +620,89 @@ theorem direct_sound_after_reinit (s : St) (ops : List Op) (recv : String) (h : 
 /-- After any source initialisation followed by exchanges the object can be observed: the receiver collection term is built from a non-none histogram. -/
 theorem exchange_sets_etc (s : St) (p : String) (z : Bool) : ((exchange s p z true).etc).isNone = false := by
   cases z <;> simp [exchange, Term.isNone]
+
+end Sparrow.Life
+
+/-! ### the stored parameters describe the stored histogram (D14) -/
+namespace Sparrow.Life
+
+/-- the parameter set a histogram term was computed with -/
+def etcParam : Term → Option String
+  | .app "etc0" [_, _, .inp p] => some p
+  | .app "etc" [_, _, _, _, _, _, .inp p] => some p
+  | _ => none
+
+/-- either no histogram is stored, or speed of sound, resolution and duration are the ones the
+    stored histogram was computed with — what `check()` demands of a saved state
+    (`n_samples = int(duration / resolution)` must be the histogram's length). -/
+def ParamsDescribeEtc (s : St) : Prop :=
+  s.etc.isNone = true ∨
+    ∃ p, etcParam s.etc = some p ∧ s.c = .app "c" [.inp p] ∧ s.dt = .app "dt" [.inp p] ∧ s.dur = .app "dur" [.inp p]
+
+theorem etcParam_etc0 (a b : Term) (p : String) : etcParam (.app "etc0" [a, b, .inp p]) = some p := by
+  simp [etcParam]
+
+theorem etcParam_etc (a b c d e f : Term) (p : String) :
+    etcParam (.app "etc" [a, b, c, d, e, f, .inp p]) = some p := by
+  simp [etcParam]
+
+/-- the property reads `etc`, `c`, `dt`, `dur` only -/
+theorem ParamsDescribeEtc.congr {a b : St} (he : a.etc = b.etc) (hc : a.c = b.c) (hdt : a.dt = b.dt)
+    (hdur : a.dur = b.dur) (h : ParamsDescribeEtc b) : ParamsDescribeEtc a := by
+  unfold ParamsDescribeEtc at *
+  rw [he, hc, hdt, hdur]; exact h
+
+theorem ParamsDescribeEtc.exchange (s : St) (h : ParamsDescribeEtc s) (p : String) (z r : Bool) :
+    ParamsDescribeEtc (exchange s p z r) := by
+  unfold Sparrow.Life.exchange
+  split
+  · right
+    refine ⟨p, ?_, rfl, rfl, rfl⟩
+    cases z
+    · exact etcParam_etc _ _ _ _ _ _ _
+    · exact etcParam_etc0 _ _ _
+  · exact h
+
+theorem ParamsDescribeEtc.step (s : St) (h : ParamsDescribeEtc s) (op : Op) :
+    ParamsDescribeEtc (step s op) := by
+  cases op with
+  | setBrdf w m => exact h.congr rfl rfl rfl rfl
+  | setAtt a => exact h.congr rfl rfl rfl rfl
+  | bake =>
+    refine h.congr ?_ ?_ ?_ ?_ <;>
+      (simp only [Sparrow.Life.step, bake]; cases s.dirsIn <;> cases s.dirsOut <;> rfl)
+  | init src =>
+    have e' : installDefaults s = setTail (installDefaults s) s := installDefaults_self_tail s
+    refine h.congr ?_ ?_ ?_ ?_ <;> (rw [Sparrow.Life.step, init_eq, e']; rfl)
+  | exchange p z r => exact h.exchange s p z r
+  | saveRestore => exact h.congr rfl rfl rfl rfl
+
+/-- invariant of every history (setters, bake, init, exchange with or without recalculation,
+    save/restore), from any state that satisfies it — in particular from a fresh object -/
+theorem params_describe_etc (s : St) (h : ParamsDescribeEtc s) (ops : List Op) :
+    ParamsDescribeEtc (run s ops) := by
+  induction ops generalizing s with
+  | nil => exact h
+  | cons op ops ih => exact ih _ (h.step s op)
+
+/-- a fresh object satisfies the invariant (no histogram stored) -/
+example (W : Nat) (g : String) : ParamsDescribeEtc (fresh W g) := Or.inl rfl
+
+/-- non-trivial: a later call without recalculation does not overwrite the stored parameters -/
+example :
+    (run (fresh 1 "g") [.bake, .init "a", .exchange "p0" false true, .exchange "p1" false false]).dur
+      = .app "dur" [.inp "p0"] := by
+  rfl
+
+example :
+    ParamsDescribeEtc (run (fresh 1 "g") [.bake, .init "a", .exchange "p0" false true, .exchange "p1" false false]) :=
+  params_describe_etc _ (Or.inl rfl) _
+
+/-- … and there the histogram is present, so the invariant holds through its second disjunct -/
+example :
+    (run (fresh 1 "g") [.bake, .init "a", .exchange "p0" false true, .exchange "p1" false false]).etc.isNone
+      = false := by
+  rfl
+
 
 end Sparrow.Life
